@@ -484,7 +484,7 @@ class TimeDeltaUnmarshaller(AbstractUnmarshaller[TimeDeltaT], tp.Generic[TimeDel
             val: The input value to unmarshal.
         """
         if isinstance(val, (int, float)):
-            return self.t(seconds=int(val))
+            return self.t(seconds=val)
 
         decoded = serdes.decode(val)
         td: datetime.timedelta = (
